@@ -208,7 +208,7 @@ func (c *gCanon) render(v reflect.Value, exported bool) {
 			c.out = append(c.out, "n")
 			return
 		}
-		if exported {
+		if exported && v.Type().Elem().Size() > 0 { // zero-size objects all live at one address
 			c.addrs[v.Pointer()] = true
 		}
 		if k, ok := c.seen[v.Pointer()]; ok {
@@ -244,7 +244,7 @@ func (c *gCanon) render(v reflect.Value, exported bool) {
 			c.out = append(c.out, "n")
 			return
 		}
-		if exported && v.Cap() > 0 {
+		if exported && v.Cap() > 0 && v.Type().Elem().Size() > 0 {
 			c.addrs[v.Pointer()] = true
 		}
 		c.out = append(c.out, fmt.Sprintf("l:%d=(", v.Len()))
